@@ -129,35 +129,54 @@ fn c01_q_handle_chain_terminates() {
 }
 
 // ---------------------------------------------------------------- context printing
-macro_rules! context_print_harness {
-    ($name:ident, $t:ty, $variant:ident) => {
-        /// F: MinidumpContext::print (arguments of every write!), get_instruction_pointer, get_stack_pointer
-        /// I: a context of this type with every byte symbolic
-        /// B: one context
-        /// O: printing never panics (no unimplemented!/index/overflow), the dedicated accessors never panic
-        #[kani::proof]
-        #[kani::unwind(520)]
-        fn $name() {
-            let raw: [u8; std::mem::size_of::<$t>()] = kani::any();
-            let c: $t = unsafe { std::mem::transmute(raw) };
-            let ctx = MinidumpContext::from_raw(MinidumpRawContext::$variant(c));
-            let r = ctx.print(&mut NullSink);
-            assert!(r.is_ok());
-            let _ = ctx.get_instruction_pointer();
-            let _ = ctx.get_stack_pointer();
-            std::mem::forget(ctx);
-        }
-    };
+macro_rules! print_one {
+    ($t:ty, $variant:ident) => {{
+        let raw: [u8; std::mem::size_of::<$t>()] = kani::any();
+        let c: $t = unsafe { std::mem::transmute(raw) };
+        let ctx = MinidumpContext::from_raw(MinidumpRawContext::$variant(c));
+        let r = ctx.print(&mut NullSink);
+        assert!(r.is_ok());
+        let _ = ctx.get_instruction_pointer();
+        let _ = ctx.get_stack_pointer();
+        std::mem::forget(ctx);
+    }};
 }
-context_print_harness!(c01_q_context_print_x86, md::CONTEXT_X86, X86);
-context_print_harness!(c01_q_context_print_amd64, md::CONTEXT_AMD64, Amd64);
-context_print_harness!(c01_q_context_print_arm, md::CONTEXT_ARM, Arm);
-context_print_harness!(c01_q_context_print_arm64, md::CONTEXT_ARM64, Arm64);
-context_print_harness!(c01_q_context_print_arm64_old, md::CONTEXT_ARM64_OLD, OldArm64);
-context_print_harness!(c01_q_context_print_ppc, md::CONTEXT_PPC, Ppc);
-context_print_harness!(c01_q_context_print_ppc64, md::CONTEXT_PPC64, Ppc64);
-context_print_harness!(c01_q_context_print_sparc, md::CONTEXT_SPARC, Sparc);
-context_print_harness!(c01_q_context_print_mips, md::CONTEXT_MIPS, Mips);
+
+/// F: MinidumpContext::print (arguments of every write!, the byte-dump loops), get_instruction_pointer, get_stack_pointer for CONTEXT_X86
+/// I: an x86 context with every byte symbolic (716 bytes)
+/// B: one context; unwind 520 covers the 512-byte extended-register dump
+/// O: printing never panics (no unimplemented!/index/overflow), the dedicated accessors never panic
+#[kani::proof]
+#[kani::unwind(520)]
+fn c01_q_context_print_x86() {
+    print_one!(md::CONTEXT_X86, X86);
+}
+
+/// F: MinidumpContext::print, get_instruction_pointer, get_stack_pointer for CONTEXT_AMD64, CONTEXT_ARM, CONTEXT_ARM64, CONTEXT_ARM64_OLD
+/// I: one context of each type with every byte symbolic
+/// B: one context each
+/// O: printing never panics, the dedicated accessors never panic
+#[kani::proof]
+#[kani::unwind(520)]
+fn c01_q_context_print_amd64_arm_arm64() {
+    print_one!(md::CONTEXT_AMD64, Amd64);
+    print_one!(md::CONTEXT_ARM, Arm);
+    print_one!(md::CONTEXT_ARM64, Arm64);
+    print_one!(md::CONTEXT_ARM64_OLD, OldArm64);
+}
+
+/// F: MinidumpContext::print, get_instruction_pointer, get_stack_pointer for CONTEXT_PPC, CONTEXT_PPC64, CONTEXT_SPARC, CONTEXT_MIPS
+/// I: one context of each type with every byte symbolic
+/// B: one context each
+/// O: printing never panics (these are the types whose print used to hit unimplemented!()), the dedicated accessors never panic
+#[kani::proof]
+#[kani::unwind(520)]
+fn c01_q_context_print_ppc_sparc_mips() {
+    print_one!(md::CONTEXT_PPC, Ppc);
+    print_one!(md::CONTEXT_PPC64, Ppc64);
+    print_one!(md::CONTEXT_SPARC, Sparc);
+    print_one!(md::CONTEXT_MIPS, Mips);
+}
 
 // ---------------------------------------------------------------- small fixed-layout streams
 /// F: MinidumpBreakpadInfo::read + print, MinidumpMemory::read (+ memory_range, get_memory_at_address)
